@@ -149,6 +149,8 @@ type line struct {
 type oracleFail struct{ key, caseLine, detail string }
 
 type result struct {
+	placed  bool // kill runs: SIGKILL was delivered at the planned system call
+	seen    obs  // kill runs: the state found afterwards
 	lines   []line
 	oracles []oracleFail
 	counts  []string
@@ -295,7 +297,9 @@ func runKill(t *task) *result {
 	}
 	caseID := fmt.Sprintf("fsrun\t%s\t%d\t%s\t%o\t%s", opsText(ri.m.ops), k, modeOct(t.mode), umask, t.id)
 	crashOracle(r, caseID, o, det)
+	r.seen = o
 	if k >= 0 {
+		r.placed = true
 		r.lines = append(r.lines, line{caseID, o.String(), true})
 		r.counts = append(r.counts, "kill_"+t.phase, "killed_at_"+name, "crash_state_"+o.class)
 	} else {
@@ -629,7 +633,7 @@ func main() {
 			}
 		}
 	}
-	emit(o, parallel(tasks, func(t *task) *result {
+	res2 := parallel(tasks, func(t *task) *result {
 		switch t.kind {
 		case "kill":
 			return runKill(t)
@@ -638,7 +642,39 @@ func main() {
 		default:
 			return runRerun(t, small)
 		}
-	}))
+	})
+	emit(o, res2)
+	// Stronger than the property (informational, compared with the model's ModeSafeSeq): where
+	// every crash point of a run was enumerated, did the path keep its mode at all of them?
+	for i, rt := range refs {
+		ri := rres[i].ref
+		if ri == nil || ri.m == nil || ri.nKiller == 0 {
+			continue
+		}
+		n, placed, same := 0, 0, true
+		for j, t := range tasks {
+			if t.kind != "kill" || t.ref != ri {
+				continue
+			}
+			n++
+			if res2[j].placed {
+				placed++
+				if res2[j].seen.class != "missing" && res2[j].seen.mode != modeOct(rt.mode) {
+					same = false
+				}
+			}
+		}
+		if n == 2*ri.nKiller-1 && placed == n && rt.mode != 0o600 {
+			b := "0"
+			if same {
+				b = "1"
+			} else {
+				o.Count("mode_changed_at_some_crash_point")
+			}
+			o.Case("fsmode\t"+opsFor(ri.m, rt.mode, true)+"\t"+rt.id+":modeatcrash", "modeatcrash="+b, true)
+			o.Count("all_crash_points_enumerated")
+		}
+	}
 	o.Stats["files"] = len(cases)
 	o.Stats["tasks_stage2"] = len(tasks)
 }
